@@ -9,16 +9,18 @@
      wordtag w    =  ts-?\s*w\s*(-?)te
    Offsets are positions relative to the start of the match (nat: sources are short); token start offsets are N.
 
-   The model follows the REPAIRED code (fix patches C10-raw-endraw-marker, C10-final-newline).  The behaviour of
-   the unrepaired code is kept under the two switches of [quirks] (used only by the *_old definitions). *)
+   The model follows the REPAIRED code (fix patches C10-raw-endraw-marker, C10-final-newline,
+   C11-unclosed-markup-custom-delimiters).  The behaviour of the unrepaired code is kept under the switches of [quirks] (used only by the *_old definitions). *)
 From LiquidVerif Require Import Prelude.
 
 Record delims := { d_ts : str; d_te : str; d_ss : str; d_se : str; d_cs : str; d_ce : str }.
 
 Record quirks := { q_raw_open : bool;    (* old: after a raw block, lstrip comes from the OPENING raw tag's marker *)
-                   q_dollar : bool }.    (* old: content look-ahead `$` also matches just before a final newline *)
-Definition fixed : quirks := {| q_raw_open := false; q_dollar := false |}.
-Definition old_code : quirks := {| q_raw_open := true; q_dollar := true |}.
+                   q_dollar : bool;      (* old: content look-ahead `$` also matches just before a final newline *)
+                   q_brace : bool }.     (* old: unclosed markup is recognised by the literal "{{" / "{%" whatever the
+                                            delimiters are (fix C11-unclosed-markup-custom-delimiters) *)
+Definition fixed : quirks := {| q_raw_open := false; q_dollar := false; q_brace := false |}.
+Definition old_code : quirks := {| q_raw_open := true; q_dollar := true; q_brace := true |}.
 
 (* ---------------------------------------------------------------- characters *)
 Definition hy : N := 45.       (* '-' *)
@@ -226,8 +228,10 @@ Definition ls0 : lstate := {| ls_lstrip := false; ls_depth := O; ls_cidx := 0%N;
 Definition off (p : N) (k : nat) : N := (p + N.of_nat k)%N.
 
 Definition lbrace : N := 123.
-Definition starts_markup (v : str) : bool :=     (* the hard-coded "{{" / "{%" test of the content branch *)
-  prefixb [lbrace; lbrace] v || prefixb [lbrace; 37%N] v.
+(* the test of the content branch for unclosed markup: content that begins with an opening delimiter *)
+Definition starts_markup (d : delims) (q : quirks) (v : str) : bool :=
+  if q_brace q then prefixb [lbrace; lbrace] v || prefixb [lbrace; 37%N] v
+  else prefixb (d_ss d) v || prefixb (d_ts d) v.
 
 (* one loop iteration of _tokenize_template on the match found at absolute position p (s = source from p) *)
 Definition step (d : delims) (q : quirks) (p : N) (s : str) (st : lstate) : list item * lstate * nat :=
@@ -286,7 +290,7 @@ Definition step (d : delims) (q : quirks) (p : N) (s : str) (st : lstate) : list
           let v2 := if rstrip then rstrip_s v1 else v1 in
           (match v2 with
            | [] => []
-           | _ => if starts_markup v2 then [LexErr p]
+           | _ => if starts_markup d q v2 then [LexErr p]
                   else [Tok {| t_kind := KContent; t_value := v2; t_start := p |}]
            end, st, tot)
       end
@@ -342,7 +346,11 @@ Definition line_end (s : str) : option nat :=
 
 Definition line_end' (s : str) : option (unit * nat) := match line_end s with Some n => Some (tt, n) | None => None end.
 
+(* the name alternative.  Repaired order (fix C11-liquid-comment-marker-order): the comment marker first, then \w+;
+   the unrepaired order  (\w+|marker)  let a marker that begins with a word character be shadowed by \w+ *)
 Definition liquid_name_len (marker : str) (s : str) : nat :=
+  if nonempty marker && prefixb marker s then length marker else word_len s.
+Definition liquid_name_len_old (marker : str) (s : str) : nat :=
   match word_len s with
   | O => if nonempty marker && prefixb marker s then length marker else O
   | n => n
@@ -397,11 +405,12 @@ Definition liquid_default_marker : str := w_hash.
 (* when template comments are off the rule's name alternative is  #|\w+  : same scanner with marker "#",
    except that a '#' line is then NOT dropped by the tokenizer (comment_start_string is "") *)
 Definition liquid_tokens (d : delims) (base : N) (expr : str) : res (list token) :=
-  match d_cs d with
+  match liquid_marker d with
   | [] =>
-      (* no marker to drop: run with "#" as the alternative but drop nothing *)
+      (* no marker (template comments off, or a comment delimiter made of '{' only): the name alternative is
+         #|\w+ and nothing is dropped *)
       items_result (liquid_go w_hash false O base expr)
-  | _ => items_result (liquid_go (liquid_marker d) true O base expr)
+  | m => items_result (liquid_go m true O base expr)
   end.
 
 (* ---------------------------------------------------------------- rendering the literal fragment *)
@@ -592,3 +601,57 @@ Definition lc_eqb (a b : option (N * N)) : bool :=
 Definition run_lex (c : lexcase) : res (list token) * robs := let t := run_tokens c in (t, render_res t).
 Definition lexobs_eqb (m : res (list token) * robs) (e : res (list token) * option robs) : bool :=
   tokres_eqb (fst m) (fst e) && match snd e with None => true | Some r => robs_eqb (snd m) r end.
+
+(* ---------------------------------------------------------------- C20: (tag name, index) pairs as template.analyze().tags
+   reports them for the main template: every tag token that becomes a node (not end*/else/elsif/when), including
+   the inner tags of a liquid tag, whose offsets are relative to the liquid tag's expression token *)
+Definition w_else : str := [101; 108; 115; 101]%N.
+Definition w_elsif : str := [101; 108; 115; 105; 102]%N.
+Definition w_when : str := [119; 104; 101; 110]%N.
+Definition reported_tag (name : str) : bool :=
+  negb (prefixb [101; 110; 100]%N name) && negb (str_eqb name w_else || str_eqb name w_elsif || str_eqb name w_when).
+
+Fixpoint tags_of (ts : list token) : list (str * N) :=
+  match ts with
+  | [] => []
+  | t :: r => match t_kind t with
+              | KTag => if reported_tag (t_value t) then (t_value t, t_start t) :: tags_of r else tags_of r
+              | _ => tags_of r
+              end
+  end.
+
+Fixpoint tag_spans (d : delims) (ts : list token) : res (list (str * N)) :=
+  match ts with
+  | [] => Ok []
+  | t :: rest =>
+      match t_kind t with
+      | KTag =>
+          if str_eqb (t_value t) w_liquid then
+            match rest with
+            | e :: rest' =>
+                match t_kind e with
+                | KExpr =>
+                    match liquid_tokens d (t_start e) (t_value e) with
+                    | Ok inner =>
+                        match tag_spans d rest' with
+                        | Ok r => Ok ((w_liquid, t_start t) :: tags_of inner ++ r)
+                        | x => x
+                        end
+                    | Err x => Err x
+                    | OutOfFuel => OutOfFuel
+                    end
+                | _ => match tag_spans d rest with Ok r => Ok ((w_liquid, t_start t) :: r) | x => x end
+                end
+            | [] => Ok [(w_liquid, t_start t)]
+            end
+          else
+            match tag_spans d rest with
+            | Ok r => Ok (if reported_tag (t_value t) then (t_value t, t_start t) :: r else r)
+            | x => x
+            end
+      | _ => tag_spans d rest
+      end
+  end.
+
+Definition run_tag_spans (c : lexcase) : res (list (str * N)) :=
+  match run_tokens c with Ok ts => tag_spans (lc_d c) ts | Err e => Err e | OutOfFuel => OutOfFuel end.
